@@ -57,7 +57,7 @@ def bind_text(raw, msk, f, arm, sub=None):
     return strip_markers(txt).strip()
 
 
-def template_blocks(raw, gen_fn, bind_fn, archetypes, params, decide_prefix, log):
+def template_blocks(raw, gen_fn, bind_fn, archetypes, params, decide_prefix, log, mode='Mut'):
     """archetypes: list of dicts(type, field, suffix); params: list of (kind, component-field or None, is_mut)."""
     msk = rs.mask(raw)
     f = fn_body(raw, msk, gen_fn)
@@ -66,8 +66,8 @@ def template_blocks(raw, gen_fn, bind_fn, archetypes, params, decide_prefix, log
         raise ExtractError('R-tmpl: queries.push(quote!( not found in %s' % gen_fn)
     close = rs.match_close(msk, m.end() - 1)
     tmpl = raw[m.end():close]
-    get_archetype = let_match_arm(raw, msk, f, 'get_archetype', 'FetchMode::Mut')
-    get_slices = let_match_arm(raw, msk, f, 'get_slices', 'FetchMode::Mut')
+    get_archetype = let_match_arm(raw, msk, f, 'get_archetype', 'FetchMode::' + mode)
+    get_slices = let_match_arm(raw, msk, f, 'get_slices', 'FetchMode::' + mode)
     bf = fn_body(raw, msk, bind_fn)
     binds = []
     for kind, comp, is_mut in params:
@@ -111,7 +111,7 @@ def template_blocks(raw, gen_fn, bind_fn, archetypes, params, decide_prefix, log
     return out
 
 
-def find_template(raw, world_name, archetypes, params, decide_prefix, key_expr, log):
+def find_template(raw, world_name, archetypes, params, decide_prefix, key_expr, log, mode='Mut'):
     """R-tmpl for ecs_find! (generate_query_find, FetchMode::Mut): the per-archetype arms of `queries.push(quote!( .. ))` are
     instantiated for every schema archetype and spliced into the wrapper `{ match #Total::try_from(#entity).expect(..) { #(#queries)* _ => None, } }`
     (text of the generator's final `Ok(quote!( .. ))`).  archetypes: dicts(type = R-tag marker type, name, field, suffix)."""
@@ -122,8 +122,8 @@ def find_template(raw, world_name, archetypes, params, decide_prefix, key_expr, 
         raise ExtractError('R-tmpl: queries.push(quote!( not found in generate_query_find')
     close = rs.match_close(msk, m.end() - 1)
     arm_tmpl = raw[m.end():close]
-    get_archetype = let_match_arm(raw, msk, f, 'get_archetype', 'FetchMode::Mut')
-    fetch = let_match_arm(raw, msk, f, 'fetch', 'FetchMode::Mut')
+    get_archetype = let_match_arm(raw, msk, f, 'get_archetype', 'FetchMode::' + mode)
+    fetch = let_match_arm(raw, msk, f, 'fetch', 'FetchMode::' + mode)
     tm = re.compile(r'let\s+__WorldSelectTotal\s*=\s*format_ident!\s*\(\s*"([^"]*)"\s*,\s*world_data\.name\s*\)').search(msk, f.body_open, f.body_close)
     if not tm:
         raise ExtractError('R-tmpl: `let __WorldSelectTotal = format_ident!(..)` not found in generate_query_find')
@@ -133,10 +133,13 @@ def find_template(raw, world_name, archetypes, params, decide_prefix, key_expr, 
     if not rm:
         raise ExtractError('R-tmpl: `let resolved_entity = quote_spanned!(..)` not found')
     resolved = rm.group(1)
-    bf = fn_body(raw, msk, 'find_bind_mut')
+    bf = fn_body(raw, msk, 'find_bind_mut' if mode == 'Mut' else 'find_bind_borrow')
     binds = []
     for kind, comp, is_mut in params:
-        t = bind_text(raw, msk, bf, kind if kind != 'Component' else 'Component')
+        if kind == 'Component' and mode == 'Borrow':
+            t = bind_text(raw, msk, bf, 'Component', 'true' if is_mut else 'false')
+        else:
+            t = bind_text(raw, msk, bf, kind)
         if kind == 'Component':
             t = t.replace('#ident', comp)
         binds.append(t)
